@@ -582,5 +582,27 @@ Definition descent_step_old (st : name * nat) (s : dstep) : name * nat :=
   end.
 
 (* ------------------------------------------------------------------ *)
+(* the two sites composed (transport guard x glue origin).  What Resolver.lookup hands to processDelegation
+   is the message Conn.Exchange accepted; checkGlueRR takes the origin of its bailiwick test from THAT
+   message's question section (resp.Question[0].Name), not from the request. *)
+Record fmsg := mk_fmsg { f_wire : wmsg; f_body : umsg }.   (* one scripted reply: what Exchange looks at, and its sections *)
+
+Definition exchange_then_glue (stream : bool) (id : N) (q : question) (replies : list fmsg)
+           (ipv6 : bool) (local : list ipaddr) (level : nat) : option (nat * option glue_result) :=
+  match exchange_accept stream id (Some q) (map (fun f => DgMsg (f_wire f)) replies) with
+  | XAccept i =>
+      match nth_error replies i with
+      | Some f =>
+          match w_qs (f_wire f) with
+          | r :: _ => Some (i, Some (check_glue ipv6 local level (q_name r)
+                                       (di_hosts (extract_info (u_ns (f_body f)))) (u_extra (f_body f))))
+          | [] => Some (i, None)       (* resp.Question[0] on an empty section: shown unreachable *)
+          end
+      | None => None
+      end
+  | _ => None
+  end.
+
+(* ------------------------------------------------------------------ *)
 (* source text helper for the shape ties *)
 Definition s2b (s : string) : list N := map (fun c => N_of_ascii c) (list_ascii_of_string s).
